@@ -455,7 +455,11 @@ func vcRunC14(t *vcTrial, cfg vc14Cfg) {
 // again. The redial path is reached only this way, so the storm is what exercises "a failed
 // dial leaves no descriptor behind" for it. The number of redials seen is reported; the
 // descriptor census is the oracle.
-func vcRunC14Storm(t *vcTrial, total, workers int) {
+func vcRunC14Storm(t *vcTrial, total, workers int) { vcRunDialStorm(t, "C14", total, workers) }
+
+// vcRunDialStorm is the storm with the violations booked on prop (C14: a failed dial leaves
+// nothing behind; C15: descriptors of failed dials are closed).
+func vcRunDialStorm(t *vcTrial, prop string, total, workers int) {
 	t.P("variant", "refused-dial-storm")
 	t.P("dials", total)
 	t.P("workers", workers)
@@ -514,20 +518,20 @@ func vcRunC14Storm(t *vcTrial, total, workers int) {
 	case <-done:
 	case <-time.After(5 * time.Minute):
 		if vcRunnerProgress(5, 5*time.Second) {
-			t.Violate("C14", "dial_stuck", "a storm of %d refused dials (1 s timeout each) has not finished after 5 minutes; %d failed, %d ok so far", total, atomic.LoadInt64(&failed), atomic.LoadInt64(&okDials))
+			t.Violate(prop, "dial_stuck", "a storm of %d refused dials (1 s timeout each) has not finished after 5 minutes; %d failed, %d ok so far", total, atomic.LoadInt64(&failed), atomic.LoadInt64(&okDials))
 		} else {
 			t.Inconclusive("storm did not finish, canary without progress")
 		}
 		return
 	}
 	if pans > 0 {
-		t.Violate("C14", "panic", "a dial panicked: %v", firstBad.Load())
+		t.Violate(prop, "panic", "a dial panicked: %v", firstBad.Load())
 	}
 	if both > 0 {
-		t.Violate("C14", "both", "%d of %d dials returned a connection AND an error", both, total)
+		t.Violate(prop, "both", "%d of %d dials returned a connection AND an error", both, total)
 	}
 	if neither > 0 {
-		t.Violate("C14", "neither", "%d of %d dials returned neither a connection nor an error", neither, total)
+		t.Violate(prop, "neither", "%d of %d dials returned neither a connection nor an error", neither, total)
 	}
 	var diff []string
 	for dl := time.Now().Add(3 * time.Second); ; {
@@ -540,7 +544,7 @@ func vcRunC14Storm(t *vcTrial, total, workers int) {
 	dials := okDials + failed + both + neither
 	redials := atomic.LoadInt64(&sockets) - dials
 	if len(diff) > 0 {
-		t.Violate("C14", "descriptor_leak", "after %d dials to closed ports (%d failed, %d ok and closed, %d sockets created, i.e. %d redials after a self-connect or EADDRNOTAVAIL) the process holds %d extra descriptor(s): %v", dials, failed, okDials, atomic.LoadInt64(&sockets), redials, len(diff), diff)
+		t.Violate(prop, "descriptor_leak", "after %d dials to closed ports (%d failed, %d ok and closed, %d sockets created, i.e. %d redials after a self-connect or EADDRNOTAVAIL) the process holds %d extra descriptor(s): %v", dials, failed, okDials, atomic.LoadInt64(&sockets), redials, len(diff), diff)
 	}
 	t.Stat("dials", int(dials))
 	t.Stat("dial_ok", int(okDials))
